@@ -46,7 +46,9 @@ check('C18',
 check('C05',
       'Theorems C05_storage_physics / C05_level_rows (every storage, any number of steps of any length, inflow, efficiency, one or two '
       'nodes, window): every feasible point of the problem the model builder returns keeps the physical level in [0,size], ends at '
-      'the end level and respects rate x step length; C05_no_simultaneous for the binary mode rows. The storage builder is compared '
+      'the end level and respects rate x step length (C05_level_within_size_at_every_step: for a storage the constructor accepts, i.e. end level '
+      'within [0,size], at every step including the last; the builder refuses the others like the implementation since fix efdd1c0); '
+      'C05_no_simultaneous for the binary mode rows. The storage builder is compared '
       'with Storage.setup_optim_problem (c, l, u, rows, mapping; incl. no_simult, max_store_duration, coarse frequency, windows, '
       'price), Storage.fill_level with the model level at box points; on every solved portfolio the physical level, rates, end level, '
       'reported fill level / charge / discharge, exclusivity and holding duration are recomputed from the returned x.',
